@@ -45,6 +45,10 @@ def pick(rng, lo, hi, p_int=0.35):
     return rng.uniform(lo, hi)
 
 
+MODESETS = [{"TE0": {"pol": 0}, "TE1": {"pol": 0, "order": 1}, "TM0": {"pol": 1}}, {"TM": {"pol": 1, "order": 2}, "TE": {}},
+            {"A": {}, "B": {"order": 1}, "C": {"pol": 1}}]
+
+
 def blocks():
     L = impl.lk()
 
@@ -104,8 +108,6 @@ def blocks():
     # missing ones fall back to the index function's defaults); modes listed sparse-last and sparse-first
     def midx(wl, T=0.0, pol=0, order=0, **kw):
         return 1.5 + 0.01 * wl + 0.02 * float(T) + 0.1 * pol + 0.03 * order
-    MODESETS = [{"TE0": {"pol": 0}, "TE1": {"pol": 0, "order": 1}, "TM0": {"pol": 1}}, {"TM": {"pol": 1, "order": 2}, "TE": {}},
-                {"A": {}, "B": {"order": 1}, "C": {"pol": 1}}]
 
     def uw_multi_expect(a, p):
         ms = MODESETS[int(a["modeset"])]
@@ -172,6 +174,11 @@ def check_point(ctx, name, spec, m, a, p, replay, k):
         res = m.solve(**p)
         S = np.array(res.S)[0]
         doc = DOC_PINS.get(name.split(":")[0]) if ":" not in name else None
+        if name == "UserWaveguide:multimode":
+            doc = [f"{b}_{mode}" for mode in MODESETS[int(a["modeset"])] for b in ("a0", "b0")]
+        if doc is None and sorted(res.pin_dic.values()) != list(range(S.shape[0])):
+            ctx.violation(f"C09:pins:{name}", f"{name}: the pins do not sit on distinct rows of the {S.shape[0]}-port matrix: {sorted(res.pin_dic.values())}", replay)
+            return False
         if doc is not None:
             if sorted(q.name for q in res.pin_dic) != sorted(doc) or sorted(res.pin_dic.values()) != list(range(len(doc))):
                 ctx.violation(f"C09:pins:{name}", f"{name}: pins {sorted((q.name, i) for q, i in res.pin_dic.items())}, documented {doc} on distinct matrix rows", replay)
